@@ -317,10 +317,12 @@ def handleLine (st0 : DrvSt) (line : String) : DrvSt × String :=
                 | .list [.sym "decode", items] => do pure (SOp.decode (← items.nats?))
                 | .list [.sym "add", i, it] => do pure (SOp.add (← i.nat?) (← it.nat?))
                 | .list [.sym "remove", i, k] => do pure (SOp.remove (← i.nat?) (← k.nat?))
+                | .list [.sym "edit", i, k] => do pure (SOp.edit (← i.nat?) (← k.nat?))
                 | _ => none
               let r := s.step op
               let tl ← goSt r.1 rest
-              pure (V.list (r.1.cells.map V.ofNats) :: tl)
+              -- per instance: the item ids, then the content version of each item
+              pure (V.list (r.1.cells.map (fun c => V.list [V.ofNats c, V.ofNats (c.map r.1.ver)])) :: tl)
           goSt Store.empty ops
         (st, match r with | some vs => (V.list vs).render | none => "(bad-op)")
       | "fs.run", [.list nodes, .list ops] =>
